@@ -278,7 +278,8 @@ def _gen_history(sim: Sim, m: Model, n: int) -> list[tuple[datetime, float | Non
         jit = ch.weighted("jitter", [6, 2, 1, 1])
         off = 0
         if jit == 1:
-            off = ch.int_between("jitter_us", -(m.period_us // 2) + 1, m.period_us // 2 - 1)
+            # anywhere between the neighbouring slots (the model decides which slot the timestamp belongs to)
+            off = ch.int_between("jitter_us", -(m.period_us - 1), m.period_us - 1)
         elif jit == 2 and m.period_us % 2 == 0:
             off = (m.period_us // 2) * (1 if ch.draw("half_sign", 2) else -1)
             sim.probe("half_period_jitter")
@@ -306,7 +307,8 @@ def scenario_buffer(sim: Sim) -> None:
 
     ch = sim.ch
     cap = ch.int_between("capacity", 1, sim.scale(12, 24))
-    period_us = ch.choice("period", [1_000_000, 500_000, 1_000, 7_000_000])
+    # (incl. periods with an odd number of microseconds: there is no exact half-way point then)
+    period_us = ch.choice("period", [1_000_000, 500_000, 1_000, 7_000_000, 7, 1_000_001])
     align = datetime(2024, 1, 1, tzinfo=sim.epoch.tzinfo) + timedelta(microseconds=ch.choice(
         "align_off", [0, 0, 250_000, 333_333, 999_999, 1]) % period_us)
     dst_far = False
